@@ -812,6 +812,295 @@ def oracle(ctx, budget):
     return count
 
 
+# ------------------------------------------------------------------ oracle 2: non-default wrapped kwargs, argument snapshots
+VARIANT_VALUES = {
+    'diff_order': [1, 3], 'spline_degree': [2, 1], 'mask_initial_peaks': [True, False], 'use_original': [True],
+    'cost_function': ['asymmetric_huber', 'symmetric_truncated_quadratic', 'asymmetric_indec'], 'threshold': [0.5],
+    'num_std': [2.0], 'p': [0.2], 'symmetric_weights': [True], 'quantile': [0.2], 'eta': [0.3], 'k': [2.0],
+    'asymmetric_coef': [2.0], 'smooth_half_window': [2], 'min_length': [3], 'num_knots': [6], 'symmetric': [True],
+    'interp_half_window': [2], 'alpha_factor': [0.9], 'normalize_weights': [True],
+}
+
+
+def variant_kwargs(klass, name, base, idx):
+    """Base catalogue kwargs plus up to two non-default values of the method's own parameters."""
+    import inspect
+    pars = [q for q in inspect.signature(getattr(klass, name)).parameters if q in VARIANT_VALUES and q not in ('p',) or q == 'p' and name in ('asls', 'iasls', 'pspline_asls', 'pspline_iasls')]
+    kw = dict(base)
+    for j in range(min(2, len(pars))):
+        q = pars[(idx + j) % len(pars)]
+        vals = VARIANT_VALUES[q]
+        kw[q] = vals[(idx // 2) % len(vals)]
+    return kw
+
+
+class Watch:
+    """Wraps a fitter method: snapshots the array arguments of every sub-call on entry, checks that they are unchanged
+    when the sub-call returns, keeps (self, data snapshot, kwargs, snapshots, output)."""
+
+    def __init__(self, klass, name):
+        self.log = []
+        self.klass, self.name = klass, name
+
+        def make(orig):
+            self.orig = orig
+
+            def wrapper(fitter, data=None, *args, **kwargs):
+                snaps = {k: np.array(v, copy=True) for k, v in kwargs.items() if isinstance(v, np.ndarray)}
+                dsnap = np.array(data, copy=True)
+                out = orig(fitter, data, *args, **kwargs)
+                changed = [k for k, sn in snaps.items() if not same(kwargs[k], sn)]
+                if not same(data, dsnap):
+                    changed.append('data')
+                self.log.append({'self': fitter, 'data': dsnap, 'kwargs': kwargs, 'snaps': snaps, 'changed': changed, 'out': out})
+                return out
+            return wrapper
+        self.patch = Patched(klass, name, make)
+
+    def __enter__(self):
+        self.patch.__enter__()
+        return self
+
+    def __exit__(self, *a):
+        self.patch.__exit__(*a)
+
+    def pristine(self, i):
+        e = self.log[i]
+        kw = {k: (np.array(e['snaps'][k], copy=True) if k in e['snaps'] else v) for k, v in e['kwargs'].items()}
+        return e['self'], np.array(e['data'], copy=True), kw
+
+    def check_args(self, ctx, key, what, call, same_across=()):
+        """Arguments unchanged across each sub-call; the named array arguments identical for all sub-calls in `same_across`."""
+        for i, e in enumerate(self.log):
+            if e['changed']:
+                ctx.fail(key + ':subcall-mutates-arguments',
+                         f'{what}: sub-call {i} of {self.name} modified its argument(s) {e["changed"]} in place, so later sub-calls '
+                         'and the reported arrays no longer are what the earlier fits used', call)
+                return False
+        idx = list(same_across)
+        for k in (self.log[idx[0]]['snaps'] if idx else ()):
+            if not all(k in self.log[i]['snaps'] and same(self.log[i]['snaps'][k], self.log[idx[0]]['snaps'][k]) for i in idx):
+                ctx.fail(key + ':subcall-arguments-differ', f'{what}: the array argument {k!r} differs between sub-calls', call)
+                return False
+        return True
+
+    def rerun_equal(self, i):
+        fitter, data, kw = self.pristine(i)
+        out = self.orig(fitter, data, **kw)
+        return same(out[0], self.log[i]['out'][0])
+
+
+def oracle_variants(ctx, budget):
+    from pybaselines import Baseline, Baseline2D
+    rng = np.random.default_rng(ctx.seed + 77)
+    prng = random.Random(ctx.seed + 77)
+    count = 0
+    with warnings.catch_warnings():
+        warnings.simplefilter('ignore')
+        # ---- adaptive_minmax: four fits from pristine copies of what the sub-calls received
+        mm_variants = [('modpoly', {}), ('modpoly', {'mask_initial_peaks': True}), ('modpoly', {'mask_initial_peaks': False, 'use_original': True}),
+                       ('modpoly', {'mask_initial_peaks': True, 'use_original': True, 'max_iter': 5}),
+                       ('imodpoly', {}), ('imodpoly', {'mask_initial_peaks': False}), ('imodpoly', {'num_std': 2.0, 'use_original': True}),
+                       ('imodpoly', {'mask_initial_peaks': True, 'tol': 1e-2})]
+        k = 0
+        for meth, mkw in mm_variants:
+            for unsorted in (False, True):
+                for have_w in (False, True):
+                    k += 1
+                    n = prng.choice([36, 50, 77])
+                    x = np.sort(rng.uniform(0, 100, n)) + np.arange(n) * 1e-3
+                    y = M.make_y(rng, x)
+                    if unsorted:
+                        perm = rng.permutation(n)
+                        x, y = x[perm], y[perm]
+                    w = rng.uniform(0.5, 1.5, n) if have_w else None
+                    w_in = None if w is None else w.copy()
+                    po = [None, 2, (1, 3)][k % 3]
+                    cf = [0.05, (0.1, 0.2), 0.3][k % 3]
+                    call = {'kind': 'oracle2-minmax', 'method': meth, 'method_kwargs': dict(mkw), 'n': n, 'unsorted': unsorted,
+                            'user_weights': have_w, 'poly_order': po, 'constrained_fraction': cf, 'seed': ctx.seed}
+                    key = f'minmax:{meth}'
+                    what = f'adaptive_minmax(method={meth!r}, method_kwargs={mkw}, {"unsorted" if unsorted else "sorted"} x, {"user" if have_w else "default"} weights)'
+                    user_mkw = dict(mkw)
+                    with Watch(Baseline, meth) as wt:
+                        b, p = Baseline(x).adaptive_minmax(y, poly_order=po, method=meth, weights=w, constrained_fraction=cf,
+                                                           constrained_weight=(50.0, 70.0), method_kwargs=user_mkw)
+                    count += 1
+                    ctx.case(('oracle2-minmax', meth, tuple(sorted(mkw)), unsorted, have_w), nontrivial=True, kind='oracle2:minmax')
+                    fits_log = wt.log[-4:]
+                    if len(wt.log) < 4:
+                        ctx.fail(key + ':four-fits', f'{what}: fewer than four fits', call)
+                        continue
+                    wt.log = fits_log
+                    if have_w and not same(w, w_in):
+                        ctx.fail(key + ':mutates-user-weights', f'{what} modified the caller\'s weights', call)
+                    wt.check_args(ctx, key, what, call)
+                    ws, cws = fits_log[0]['snaps']['weights'], fits_log[1]['snaps']['weights']
+                    if not (same(fits_log[2]['snaps']['weights'], ws) and same(fits_log[3]['snaps']['weights'], cws)
+                            and same(p['weights'], ws) and same(p['constrained_weights'], cws)):
+                        ctx.fail(key + ':reported-arrays-not-used', f'{what}: the weight arrays the four fits received are not bit-identical '
+                                 'to the reported weights / constrained_weights', call)
+                    fits = [getattr(Baseline(x), meth)(y, poly_order=int(o), weights=np.array(ww, copy=True), **mkw)[0]
+                            for o in p['poly_order'] for ww in (ws, cws)]
+                    if not same(np.maximum.reduce(fits), b):
+                        ctx.fail(key + ':recomposition', f'{what} is not the point-wise maximum of the four fits defined by the reported '
+                                 f'poly orders and weight arrays (max abs diff {np.abs(np.maximum.reduce(fits) - b).max():.3g})', call)
+        # ---- collab_pls with non-default wrapped kwargs: step-2 arguments stable, rows == direct single-pass fits
+        for two_d, names, kwtab, klass in ((False, COLLAB_1D, M.KW_1D, Baseline), (True, COLLAB_2D, M.KW_2D, Baseline2D)):
+            for mi, method in enumerate(names):
+                if budget == 1 and (mi + ctx.seed + two_d) % 2:
+                    continue
+                avg = bool((mi + ctx.seed) % 2)
+                if two_d:
+                    x, z, y = M.make_z2d(rng, 11, 12)
+                    data = np.array([y, y * 0.8 + 2, y + rng.normal(0, 0.3, y.shape)])
+                    mk = lambda: Baseline2D(x, z)   # noqa
+                else:
+                    n = prng.choice([37, 52])
+                    x = M.make_x(prng, n, 'random')
+                    y = M.make_y(rng, x)
+                    if mi % 2 == 0:
+                        perm = rng.permutation(n)
+                        x, y = x[perm], y[perm]
+                    data = np.vstack([y, y * 0.8 + 2, y + rng.normal(0, 0.3, n)])
+                    mk = lambda: Baseline(x)   # noqa
+                kw = variant_kwargs(klass, method, kwtab[method], mi + ctx.seed)
+                try:
+                    getattr(mk(), method)(data[0], **kw)
+                except Exception:  # noqa -- variant not valid for this method: fall back to the catalogue
+                    kw = dict(kwtab[method])
+                user = dict(kw)
+                if method not in NO_LOOP:
+                    user.update(tol=1e-3, max_iter=4)
+                if mi % 3 == 0:
+                    user['weights'] = np.linspace(0.3, 1.0, data[0].size).reshape(data[0].shape)
+                call = {'kind': 'oracle2-collab', 'method': method, 'two_d': two_d, 'average_dataset': avg,
+                        'user': {k_: (v if not isinstance(v, np.ndarray) else 'array') for k_, v in user.items()}, 'seed': ctx.seed}
+                key = f'collab:{method}:{"2d" if two_d else "1d"}'
+                what = f'collab_pls(method={method!r}, average_dataset={avg}, method_kwargs={call["user"]})'
+                try:
+                    with Watch(klass, method) as wt:
+                        b, p = mk().collab_pls(data, average_dataset=avg, method=method, method_kwargs=user)
+                except Exception as exc:  # noqa
+                    ctx.fail(key + ':raises', f'{what} raised {type(exc).__name__}: {exc}', call)
+                    continue
+                count += 1
+                ctx.case(('oracle2-collab', method, two_d, avg, tuple(sorted(kw))), nontrivial=True, kind='oracle2:collab')
+                M_ = len(data)
+                step2 = list(range(len(wt.log) - M_, len(wt.log)))
+                if not wt.check_args(ctx, key, what, call, same_across=step2):
+                    continue
+                if not same(wt.log[step2[0]]['snaps']['weights'], p['average_weights']) or (
+                        'average_alpha' in p and not same(wt.log[step2[0]]['snaps']['alpha'], p['average_alpha'])):
+                    ctx.fail(key + ':reported-arrays-not-used', f'{what}: step 2 did not receive the reported average weights / alpha', call)
+                    continue
+                direct = dict(kw)
+                direct['weights'] = np.array(p['average_weights'], copy=True)
+                if 'average_alpha' in p:
+                    direct['alpha'] = np.array(p['average_alpha'], copy=True)
+                if method not in NO_LOOP:
+                    direct.update(tol=np.inf, max_iter=[0, 2, 7][mi % 3])
+                if method in ('brpls', 'pspline_brpls'):
+                    direct['tol_2'] = np.inf
+                if method == 'fabc':
+                    direct['weights_as_mask'] = True
+                for r in range(M_):
+                    bb = getattr(mk(), method)(data[r], **{k_: (np.array(v, copy=True) if isinstance(v, np.ndarray) else v) for k_, v in direct.items()})[0]
+                    if not same(bb, b[r]):
+                        ctx.fail(key + ':recomposition', f'{what}: row {r} differs from {method} called directly with the reported averages, '
+                                 f'tol=inf and the same own parameters by {np.abs(bb - b[r]).max():.3g}', call)
+                        break
+        # ---- custom_bc identity with non-default wrapped kwargs (user weights only with sorted x)
+        names = [m for m in M.method_names() if m not in ('collab_pls', 'custom_bc', 'optimize_extended_range', 'adaptive_minmax', 'interp_pts')]
+        if budget == 1:
+            names = names[(ctx.seed + 1) % 2::2]
+        import inspect
+        for mi, method in enumerate(names):
+            n = prng.choice([41, 58])
+            x = M.make_x(prng, n, 'uniform' if mi % 2 else 'random')
+            y = M.make_y(rng, x)
+            unsorted = mi % 3 == 1
+            if unsorted:
+                perm = rng.permutation(n)
+                x, y = x[perm], y[perm]
+            kw = variant_kwargs(Baseline, method, M.KW_1D[method] or {}, mi + ctx.seed)
+            if not unsorted and mi % 2 == 0 and 'weights' in inspect.signature(getattr(Baseline, method)).parameters:
+                kw['weights'] = rng.uniform(0.4, 1.0, n)
+            copykw = lambda: {k_: (np.array(v, copy=True) if isinstance(v, np.ndarray) else v) for k_, v in kw.items()}   # noqa
+            try:
+                b2, p2 = getattr(Baseline(x), method)(y, **copykw())
+            except Exception:  # noqa
+                kw = dict(M.KW_1D[method] or {})
+                try:
+                    b2, p2 = getattr(Baseline(x), method)(y, **copykw())
+                except Exception:  # noqa
+                    continue
+            call = {'kind': 'oracle2-custom', 'method': method, 'n': n, 'unsorted': unsorted,
+                    'kwargs': {k_: (v if not isinstance(v, np.ndarray) else 'array') for k_, v in kw.items()}, 'seed': ctx.seed}
+            try:
+                b, p = Baseline(x).custom_bc(y, method=method, method_kwargs=copykw())
+            except Exception as exc:  # noqa
+                ctx.fail(f'custom_bc:identity:{method}:raises', f'custom_bc(method={method!r}, method_kwargs={call["kwargs"]}) raised {exc}', call)
+                continue
+            count += 1
+            ctx.case(('oracle2-custom', method, tuple(sorted(kw)), unsorted), nontrivial=True, kind='oracle2:custom-identity')
+            if not same(b, b2):
+                ctx.fail(f'custom_bc:identity:{method}', f'custom_bc(method={method!r}, method_kwargs={call["kwargs"]}) with the default region '
+                         f'and sampling differs from {method} itself with the same parameters (max abs diff {np.abs(b - b2).max():.3g})', call)
+        # ---- optimize_extended_range sweeps: arguments stable across the sweep, each fit reproducible from pristine arguments
+        ext = [('modpoly', {'mask_initial_peaks': True}, (1, 4, 1), True), ('modpoly', {'use_original': True}, (1, 3, 1), False),
+               ('imodpoly', {'num_std': 2.0, 'mask_initial_peaks': True}, (1, 4, 1), True),
+               ('penalized_poly', {'cost_function': 'asymmetric_huber'}, (1, 3, 1), True),
+               ('penalized_poly', {'cost_function': 'symmetric_truncated_quadratic', 'threshold': 0.5}, (2, 4, 2), False),
+               ('asls', {'diff_order': 1, 'p': 0.1}, (1, 3, 1), True), ('arpls', {'diff_order': 3}, (3, 6, 1), True),
+               ('aspls', {'diff_order': 1}, (2, 4, 1), True), ('pspline_asls', {'spline_degree': 2, 'num_knots': 7, 'diff_order': 1}, (0, 2, 1), True),
+               ('iasls', {'lam_1': 1e-3, 'p': 0.1}, (2, 4, 1), False), ('quant_reg', {'quantile': 0.1, 'max_iter': 30}, (1, 3, 1), True),
+               ('mixture_model', {'num_knots': 7, 'diff_order': 2}, (0, 2, 1), False)]
+        for k, (method, kw, rngv, have_w) in enumerate(ext):
+            for unsorted in ((False, True) if budget > 1 or k % 2 == ctx.seed % 2 else (False,)):
+                n = prng.choice([44, 60])
+                x = np.sort(rng.uniform(0, 100, n)) + np.arange(n) * 1e-3
+                y = M.make_y(rng, x)
+                if unsorted:
+                    perm = rng.permutation(n)
+                    x, y = x[perm], y[perm]
+                side = ['both', 'right', 'left'][k % 3]
+                ws = [0.1, 0.25][k % 2]
+                mkw = dict(kw)
+                if have_w:
+                    mkw['weights'] = rng.uniform(0.3, 1.0, n)
+                if method == 'aspls':
+                    mkw['alpha'] = rng.uniform(0.5, 1.0, n)
+                ins = {k_: np.array(v, copy=True) for k_, v in mkw.items() if isinstance(v, np.ndarray)}
+                call = {'kind': 'oracle2-extended', 'method': method, 'kwargs': dict(kw), 'user_weights': have_w, 'n': n, 'side': side,
+                        'width_scale': ws, 'unsorted': unsorted, 'range': rngv, 'seed': ctx.seed}
+                key = f'extended:{method}'
+                what = (f'optimize_extended_range(method={method!r}, method_kwargs={kw}{" + weights" if have_w else ""}, side={side!r}, '
+                        f'{"unsorted" if unsorted else "sorted"} x)')
+                try:
+                    with Watch(Baseline, method) as wt:
+                        b, p = Baseline(x).optimize_extended_range(y, method=method, side=side, width_scale=ws, min_value=rngv[0],
+                                                                   max_value=rngv[1], step=rngv[2], method_kwargs=mkw)
+                        count += 1
+                        ctx.case(('oracle2-extended', method, side, unsorted), nontrivial=True, kind='oracle2:extended')
+                        if any(not same(mkw[k_], v) for k_, v in ins.items()):
+                            ctx.fail(key + ':mutates-user-arrays', f'{what} modified the caller\'s weights / alpha', call)
+                        if not wt.check_args(ctx, key, what, call, same_across=range(len(wt.log))):
+                            continue
+                        pname = 'poly_order' if 'poly_order' in wt.log[0]['kwargs'] else 'lam'
+                        bi = [i for i, e in enumerate(wt.log) if e['kwargs'][pname] == p['optimal_parameter']]
+                        aw = int(n * ws)
+                        lo_ = 0 if side == 'right' else aw
+                        if not bi or not same(b, wt.log[bi[0]]['out'][0][lo_:lo_ + n]):
+                            ctx.fail(key + ':composition', f'{what}: the baseline is not the optimal fit over the data', call)
+                        elif not wt.rerun_equal(bi[0]):
+                            ctx.fail(key + ':recomposition', f'{what}: the optimal fit is not reproduced by calling {method} with the same '
+                                     'data, parameter and (pristine) padded weights', call)
+                except Exception as exc:  # noqa
+                    ctx.fail(key + ':raises', f'{what} raised {type(exc).__name__}: {exc}', call)
+    return count
+
+
 def run(ctx):
     ctx.rule = ('collab trace: every accepted wrapped method (1-D 28, 2-D 20) x average_dataset x {real method with valid keys incl. '
                 'tol/max_iter/weights/alpha/tol_2/weights_as_mask, probe with a random key subset in random order}; '
@@ -839,6 +1128,7 @@ def run(ctx):
             ctx.broke(f'harness:{step.__name__}', traceback.format_exc()[-1500:])
     budget = 1 if (ok and not ctx.broken and ctx.tier == 'quick') else 3
     n = oracle(ctx, budget)
+    n += oracle_variants(ctx, budget)
     ctx.note(f'direct oracle: {n} recomposition comparisons on real methods, bit-exact (budget x{budget})')
     ctx.note('not covered: custom_bc with lam smoothing (Whittaker system is C06), regions with an empty section (NaN mean), '
              '2-D adaptive_minmax index arithmetic (same code shape, four edges) is exercised by C01/C02 oracles only, '
@@ -851,7 +1141,9 @@ def replay(rep):
     print('replay case:', case)
     ctx = Ctx(PROP, 'quick', case.get('seed', 0))
     kind = case.get('kind', '')
-    if kind.startswith('oracle'):
+    if kind.startswith('oracle2'):
+        oracle_variants(ctx, 3)
+    elif kind.startswith('oracle'):
         oracle(ctx, 3)
     elif kind == 'collab-trace':
         collab_trace(ctx)
